@@ -1962,6 +1962,15 @@ impl Collection {
     /// # Arguments
     /// * `tokenizer` - The tokenizer chain to use
     pub fn set_tokenizer(&mut self, tokenizer: TokenizerChain) {
+        // BM25 indexes loaded on open were built with the tokenizer the
+        // collection had at that point (the default: the open callback, which
+        // is where this is called from, runs after the indexes are loaded).
+        // They tokenize documents and queries themselves, so they have to
+        // follow, or text added after a reopen is filed under other terms
+        // than `Collection::tokenize` and the first session produced.
+        for index in &mut self.bm25_indexes {
+            index.set_tokenizer(tokenizer.clone());
+        }
         self.tokenizer = tokenizer;
     }
 
